@@ -680,6 +680,20 @@ func famPattern(o *Out, r R, tier string) {
 	for _, v := range append(append(append([]string{}, originsValidSecure...), originsValidInsecure...), originsPSL...) {
 		emit("valid", "corpus", v)
 	}
+	// long rejected strings (the error must carry the offending value exactly as supplied, whatever its length)
+	for _, ln := range []int{300, 1023, 1024, 1025, 1100, 2048} {
+		fill := strings.Repeat("a", ln)
+		emit("defect", "long-defect", "https://example.com/"+fill)
+		emit("defect", "long-defect", "https://example.com?"+fill)
+		emit("defect", "long-defect", "https://example.com#"+fill)
+		emit("defect", "long-defect", "https://"+fill+"@example.com")
+		emit("defect", "long-defect", "https://example.com:"+strings.Repeat("9", ln))
+		emit("defect", "long-defect", "https://"+fill+".example.com")
+		emit("defect", "long-defect", "https://"+longHost(ln, 'b'))
+		emit("defect", "long-defect", "https://example.com"+strings.Repeat(" ", ln))
+		emit("defect", "long-defect", fill+"://example.com")
+		emit("defect", "long-defect", "https://r\xc3\xa9sum\xc3\xa9"+fill+".example.com")
+	}
 	// non-ASCII hosts: every single byte 0x80-0xFF, and code points of every UTF-8 length, at the start, in the
 	// middle and at the end of a label (a Unicode host is a documented non-form, whatever the script)
 	for bv := 0x80; bv <= 0xFF; bv++ {
